@@ -140,6 +140,8 @@ func Scenarios(prop string) []gx.Sc {
 		out = append(out, gx.Sc{Name: "prod?rm=1&nm=2&icpt=4&icptpanic=3&faults=" + Faults + "&gates=" + Gates, Q: 1, T: 2})
 		out = append(out, gx.Sc{Name: "prod?rm=1&nm=2&icpt=3&icptpanic=2&faults=" + Faults + "&gates=" + Gates, Q: 1, T: 2})
 		out = append(out, gx.Sc{Name: "prod?rm=1&nm=1&icpt=3&icptpanic=3&faults=" + Faults + "&gates=" + Gates, Q: 1, T: 2})
+		// a tombstone (nil Value) through a chain with a panicking interceptor in the middle
+		out = append(out, gx.Sc{Name: "prod?rm=1&nm=2&icpt=3&icptpanic=2&tomb=1&faults=" + Faults + "&gates=" + Gates, Q: 1, T: 2})
 		// a submission the dispatcher rejects (larger than MaxMessageBytes) while another message is being retried
 		out = append(out, gx.Sc{Name: "prod?rm=2&nm=3&np=1&big=2&icpt=2&policy=input&faults=" + Faults + "&gates=" + Gates, Q: 2, T: 3})
 	}
